@@ -147,7 +147,7 @@ pub fn family(name: &str) -> Family {
             rt_bound: 0,
             max_usks: 4,
             rt_encs: false,
-            probes: &[],
+            probes: &["tenant"],
         },
         "dis" => {
             let mut a: Vec<String> = vec!["disable A::y".into(), "disable H::hi".into(), "update".into(), "rederive".into(), "rt-msk".into(), "add H::mid classic after lo".into()];
@@ -157,14 +157,15 @@ pub fn family(name: &str) -> Family {
             a.extend(refresh3.iter().map(|s| s.to_string()));
             Family {
                 name: "dis",
-                init: w_init(true),
+                // A::hi next to H::hi: the same attribute name in two dimensions
+                init: { let mut i = w_init(true); i.extend(ops(&["add A::hi classic", "update"])); i },
                 alphabet: ops(&a.iter().map(String::as_str).collect::<Vec<_>>()),
-                enc_menu: vec!["A::x", "A::y", "H::hi", "H::lo", "H::mid", "A::x && H::hi", "A::y && H::lo", "A::y && H::mid", "A::x || A::y", "*"],
+                enc_menu: vec!["A::x", "A::y", "H::hi", "H::lo", "H::mid", "A::hi", "A::hi && H::hi", "H::hi && A::hi", "A::x && H::hi", "A::y && H::lo", "A::y && H::mid", "A::x || A::y", "*"],
                 tags: Tags { open: "C06.c", deny: "C06.e" },
                 rt_bound: 2,
                 max_usks: 3,
                 rt_encs: false,
-                probes: &[],
+                probes: &["tenant"],
             }
         }
         "rt" => {
@@ -220,6 +221,18 @@ pub fn family(name: &str) -> Family {
                 probes: &["recaps"],
             }
         }
+        "rotsnap" => {
+            // rotation across a saved and restored master key, and across re-imported user keys
+            let mut f = family("rot");
+            f.name = "rotsnap";
+            f.init.extend(ops(&["snapshot"]));
+            f.alphabet = ops(&[
+                "rekey A::x", "rekey *", "rekey A::y", "prune A::x", "restore", "rt-usk 0", "rt-usk 1", "rt-msk",
+                "refresh 0 keep", "refresh 0 drop", "refresh 1 keep", "refresh 2 keep", "keygen A::x && H::hi",
+            ]);
+            f.rt_bound = 2;
+            f
+        }
         "auth" => {
             // C01 / C02 over histories: authorisation decisions of keys that have been through
             // rotations and refreshes (the initial world already holds a refreshed key with two
@@ -256,7 +269,7 @@ pub fn family(name: &str) -> Family {
             rt_bound: 1,
             max_usks: 3,
             rt_encs: false,
-            probes: &[],
+            probes: &["tenant"],
         },
         "pke" => {
             // C12 over histories: long-lived PKE ciphertexts decrypted again after every operation
